@@ -3272,12 +3272,17 @@ XPath::stepPattern(
 
             opPos += 3;
 
-            score = NodeTester(
+            // Only an attribute can be selected by a step on the attribute axis,
+            // whatever the node test is (e.g. @node()).
+            if (context->getNodeType() == XalanNode::ATTRIBUTE_NODE)
+            {
+                score = NodeTester(
                             *this,
                             executionContext,
                             opPos,
                             argLen,
-                            XPathExpression::eFROM_ATTRIBUTES)(*context, context->getNodeType());
+                            XPathExpression::eFROM_ATTRIBUTES)(*context, XalanNode::ATTRIBUTE_NODE);
+            }
         }
         break;
 
@@ -3756,7 +3761,7 @@ XPath::findAttributes(
             XPathExecutionContext&  executionContext,
             XalanNode*              context, 
             OpCodeMapPositionType   opPos,
-            OpCodeMapValueType      stepType,
+            OpCodeMapValueType      /* stepType */,
             MutableNodeRefList&     subQueryResults) const
 {
     assert(subQueryResults.empty() == true);
@@ -3779,12 +3784,15 @@ XPath::findAttributes(
 
             if (nAttrs != 0)
             {
+                // Attributes are always tested with the attribute node tests, also when
+                // the step is the eMATCH_ATTRIBUTE step of a match pattern (re-evaluated
+                // by handleFoundIndex() for positional predicates).
                 const NodeTester    theTester(
                                 *this,
                                 executionContext,
                                 opPos,
                                 argLen,
-                                stepType);
+                                XPathExpression::eFROM_ATTRIBUTES);
 
                 for (XalanSize_t j = 0; j < nAttrs; j++)
                 {
